@@ -5,12 +5,14 @@
 package c14
 
 import (
+	"context"
 	"encoding/json"
 	"fmt"
 	"io"
 	"sort"
 	"strings"
 	"testing"
+	"time"
 
 	"github.com/vektah/gqlparser/v2"
 	gast "github.com/vektah/gqlparser/v2/ast"
@@ -140,7 +142,7 @@ func plant(u *fedlab.Universe, coords []string) map[string][]string {
 func families(run *vk.Run) []*family {
 	core, abs := fedlab.SCore(), fedlab.SAbs()
 	fc := &family{name: "S-core", s: core, u: fedlab.SCoreUniverse(core), schema: mustSchema(core.SDL()),
-		protected: [][]string{{"User.nick"}, {"User.name"}, {"User.reviews"}, {"Review.body"}, {"Product.title"}, {"User.favorite"}, {"Query.topProducts"}, {"Mutation.touch"}, {"Receipt.note"}}}
+		protected: [][]string{{"User.nick"}, {"User.name"}, {"User.reviews"}, {"Review.body"}, {"Product.title"}, {"User.favorite"}, {"Query.topProducts"}, {"Mutation.touch"}, {"Receipt.note"}, {"Subscription.userUpdated"}}}
 	fc.layouts = []*fedlab.Layout{
 		fedlab.ByType(core, 2, func(r fedlab.FieldRef) int {
 			if r.Type == "Product" || r.Field == "topProducts" || r.Field == "reviews" {
@@ -181,6 +183,14 @@ func families(run *vk.Run) []*family {
 	}
 	fc.ops = fedlab.GenOps(fedlab.GenConfig{Schema: fc.schema, Widths: vk.Pick(run, []int{1, 2, 1}, []int{1, 2, 2}), ArgMenu: menu}, "query")
 	fc.ops = append(fc.ops, fedlab.GenOps(fedlab.GenConfig{Schema: fc.schema, Widths: []int{1, 2, 1}, ArgMenu: menu}, "mutation")...)
+	subOps := fedlab.GenOps(fedlab.GenConfig{Schema: fc.schema, Widths: []int{1, 2, 1}, ArgMenu: menu}, "subscription")
+	for _, op := range subOps {
+		fc.ops = append(fc.ops, op)
+		// and with the root field aliased
+		al := op.Clone()
+		al.Sel[0].Alias = "ev"
+		fc.ops = append(fc.ops, al)
+	}
 	for _, q := range []string{`{me {name} users {name}}`, `{me {nick name} topProducts {seller {name nick}}}`, `{users {name} me {friends {name}}}`, `{me {name reviews {author {name}}}}`} {
 		fc.ops = append(fc.ops, &fedlab.Op{Kind: "query", Raw: q})
 	}
@@ -236,10 +246,78 @@ func rootCoords(r *fedlab.Request) (coords []string, opType string) {
 	return coords, string(op.Operation)
 }
 
+func authOptions(a *authz, mode string) []engine.ExecutionOptions {
+	switch mode {
+	case "post":
+		return []engine.ExecutionOptions{engine.WithAuthorizer(a)}
+	case "pre":
+		return []engine.ExecutionOptions{engine.WithPreFetchFieldAuthorizer(a)}
+	}
+	return []engine.ExecutionOptions{engine.WithAuthorizer(a), engine.WithPreFetchFieldAuthorizer(a)}
+}
+
+// judgeSub: the subscription transport. Every update frame is compared with the
+// reference executor's answer for that event with denied coordinates erroring.
+func judgeSub(f *family, lab *fedlab.Lab, q string, doc *gast.QueryDocument, deny map[string]bool, mode string, sentinels map[string][]string) (string, []fail) {
+	var rootField string
+	for _, sel := range doc.Operations[0].SelectionSet {
+		if fd, ok := sel.(*gast.Field); ok {
+			rootField = fd.Name
+		}
+	}
+	a := &authz{deny: deny}
+	ctx, cancel := context.WithTimeout(context.Background(), 30*time.Second)
+	defer cancel()
+	w, reqs, err := lab.ExecStream(ctx, q, "", nil, authOptions(a, mode)...)
+	var fails []fail
+	all := strings.Join(w.Frames, "\n") + strings.Join(w.Errors, "\n")
+	for c := range deny {
+		for _, s := range sentinels[c] {
+			if strings.Contains(all, s) {
+				fails = append(fails, fail{"a response never contains a non-null value at a position whose field coordinate was denied (subscription update)", "sentinel of " + c + " in a subscription frame", fmt.Sprintf("sentinel %s found in %s", s, all)})
+			}
+		}
+	}
+	rootDenied := deny["Subscription."+rootField]
+	if mode != "post" && rootDenied {
+		for _, r := range reqs {
+			if r.OpType == "subscription" {
+				fails = append(fails, fail{"with pre-fetch authorization a mutation or subscription request is not sent when any of its root fields is denied", "request sent: subscription", r.Host + " " + r.Query})
+			}
+		}
+		return fmt.Sprintf("sub-root-denied frames=%d err=%v", len(w.Frames), err != nil), fails
+	}
+	if err != nil {
+		return "engine-error", append(fails, fail{"a response is returned", "Execute returned an error (subscription)", err.Error()})
+	}
+	n := f.u.Events(rootField)
+	if len(w.Frames) != n {
+		fails = append(fails, fail{"every subscription update is delivered", "number of frames", fmt.Sprintf("%d frames for %d events: %v", len(w.Frames), n, w.Frames)})
+		return "frames", fails
+	}
+	for i, fr := range w.Frames {
+		dr := &denyResolver{inner: fedlab.Mono{U: f.u, Event: i}, deny: deny, hit: map[string]bool{}}
+		ref := refexec.Execute(f.schema, doc, dr, refexec.Options{Root: fedlab.RootObj("Subscription")})
+		m, derr := refexec.DecodeObject([]byte(fr))
+		if derr != nil {
+			fails = append(fails, fail{"a response is returned", "subscription frame is not JSON", fr})
+			continue
+		}
+		if gw, want := refexec.Canon(m["data"]), refexec.Canon(ref.Data); gw != want {
+			fails = append(fails, fail{"denied positions are null and null-propagate like any other null; everything else is unchanged", "subscription update differs from the reference with denied coordinates erroring", fmt.Sprintf("event %d\ngateway:   %s\nreference: %s", i, gw, want)})
+			break
+		}
+	}
+	return fmt.Sprintf("sub frames=%d reqs=%d", len(w.Frames), len(reqs)), fails
+}
+
 func judge(f *family, lab *fedlab.Lab, q string, deny map[string]bool, mode string, sentinels map[string][]string, keyFields map[string]bool) (string, []fail) {
 	doc, errs := gqlparser.LoadQuery(f.schema, q)
 	if errs != nil {
 		return "invalid", []fail{{"harness", "generator", errs.Error()}}
+	}
+	if doc.Operations[0].Operation == gast.Subscription {
+		return judgeSub(f, lab, q, doc, deny, mode, sentinels)
 	}
 	kind := "Query"
 	if doc.Operations[0].Operation == gast.Mutation {
